@@ -146,6 +146,8 @@ def prop_menu(mid):
         return [('i0', 'now a string', 'String', ('str', 'now a string')), ('i3', 2 ** 31, 'Int64', ('int', 2 ** 31)),
                 ('i4', 1, 'Int32', ('int', 1)), ('f', 7, 'Int32', ('int', 7)), ('s', 2.5, 'DoubleFloat', ('float', struct.pack('<d', 2.5).hex())),
                 ('i6', -1, 'Int32', ('int', -1))]
+    if mid == 7:  # a value of a type the writer cannot represent -> the call raises TypeError
+        return [('bad', object(), 'String', ('str', ''))]
     raise ValueError(mid)
 
 
@@ -185,6 +187,7 @@ def call_shapes():
         [C('e', '', 0, 1)],                       # empty group and channel names
         [['G', 'e', 2], C('e', 'a', 1, 3)],
         # the same ChannelObject instance written again after its .data was replaced (streaming loop with a shorter last block)
+        [['C', 'g', 'a', 0, 1, 7]],                # unsupported property value: rejected while the metadata is built
         [['C*', 'g', 'a', 0, 3, 0]],
         [['C*', 'g', 'a', 0, 1, 0], C('g', 'b', 1, 1)],
     ]
@@ -251,6 +254,7 @@ def run_program(calls, assign, split, version, dest, index):
     counters = {}
     instances = {}
     models = []
+    rejected = []
     nc = len(calls)
     sessions = [list(range(nc))] if not split or nc < 2 else [list(range(split)), list(range(split, nc))]
     tmp = None
@@ -273,13 +277,17 @@ def run_program(calls, assign, split, version, dest, index):
                     models.append(model)
                     r = H.guarded(w.write_segment, objs)
                     if r[0] != 'ok':
-                        return ('rejected', ci, '%s: %s' % (r[1], r[2]))
+                        # the caller catches the error and carries on: a rejected call must have no effect at all
+                        models[-1] = []
+                        rejected.append(ci)
         if dest == 'path':
             data = open(path, 'rb').read()
             idx = open(path + '_index', 'rb').read() if index else None
         else:
             data = stream.getvalue()
             idx = istream.getvalue() if index else None
+        if rejected and len(rejected) == nc:
+            return ('rejected', rejected[0], 'every call was rejected')
         return ('written', data, idx, models)
     finally:
         if tmp:
